@@ -145,6 +145,7 @@ class RemoteSession:
         self.closed_local_at: float | None = None
         self.reset_seen = False
         self.reading = True
+        self.read_rate: float | None = None  # octets per virtual second the remote takes from its socket (None: as fast as they come)
         # kernel TCP timing is real while our clock is virtual: never let Nagle / delayed ACK hold bytes back
         # (40 ms of real time would be minutes of virtual time)
         try:
@@ -164,7 +165,13 @@ class RemoteSession:
                 if not self.reading:
                     await asyncio.sleep(0.01)
                     continue
-                data = await loop.sock_recv(self.sock, 65536)
+                if self.read_rate:
+                    # a slow consumer: a small bite, then a pause which makes the average the requested rate
+                    bite = max(1, min(2048, int(self.read_rate / 5)))
+                    data = await loop.sock_recv(self.sock, bite)
+                    await asyncio.sleep(len(data) / self.read_rate)
+                else:
+                    data = await loop.sock_recv(self.sock, 65536)
                 try:
                     self.sock.setsockopt(socket.IPPROTO_TCP, socket.TCP_QUICKACK, 1)
                 except OSError:
